@@ -985,9 +985,18 @@ def skeleton(e, table):
         if x.is_Integer:
             return sp.Pow(skeleton(b, table), x)
         if x.is_Rational:
-            # sqrt and friends: canonical base, then one symbol per (base, exponent)
+            # sqrt and friends: canonical base split into numerator and denominator (quantities under a root are taken
+            # as positive: sqrt(1/q) == 1/sqrt(q)), then one symbol per (part, |exponent|)
             cb = _canon(skeleton(b, table))
-            return _sym(table, ("pow", cb, x))
+            nu, de = sp.fraction(cb)
+            if x < 0:
+                nu, de, x = de, nu, -x
+            out = sp.Integer(1)
+            if nu != 1:
+                out = out * _sym(table, ("pow", nu, x))
+            if de != 1:
+                out = out / _sym(table, ("pow", de, x))
+            return out
         return _sym(table, ("pow", _canon(skeleton(b, table)), _canon(skeleton(x, table))))
     if isinstance(e, sp.Piecewise):
         parts = []
